@@ -8,8 +8,8 @@ Statements only (helpers: `Proofs/Stack.lean`, `Proofs/Array*.lean`).  Concrete 
 
 Quantifiers: every stack state satisfying the invariant, every element, every push/pop/peek/size
 interleaving of any length (hence across any number of growth steps), every initial capacity the
-constructor accepts, every growth function, every allocator schedule.
-Hypothesis: `0 < m.live` (the ledger knows the stack's blocks). -/
+constructor accepts, every growth function, every allocator schedule, both allocator triples; no
+hypothesis on the ledger.  Whole traversals (iterator, zip, map, filter) are `C07Stack`. -/
 namespace CC.Properties.C09Stack
 open CC
 open CC.Spec.Seq (SOp Out)
